@@ -97,6 +97,7 @@ type Cluster struct {
 	Trace        []string
 	Verbose      bool
 	infraErr     string
+	engine       string // mem | pebble
 }
 
 type client struct {
@@ -157,7 +158,7 @@ func (c *Cluster) startReplica(i int) error {
 	tr := &rafthttp.Transport{DialTimeout: time.Second, ClusterID: "verif", TrStats: ts, PeersStats: stats.NewPeersStats()}
 	mconf := &node.MachineConfig{NodeID: uint64(i), BroadcastAddr: "127.0.0.1", LocalRaftAddr: fmt.Sprintf("http://127.0.0.1:%d", 100+i), DataRootDir: r.dir,
 		TickMs: 100, ElectionTick: ElectionTick, KeepBackup: 2, KeepWAL: 2}
-	mconf.RocksDBOpts.EngineType = "mem"
+	mconf.RocksDBOpts.EngineType = c.engine
 	r.mgr = node.NewNamespaceMgr(tr, mconf)
 	nn, err := r.mgr.InitNamespaceNode(nsConf(), uint64(i), false)
 	if err != nil {
@@ -173,7 +174,11 @@ func (c *Cluster) startReplica(i int) error {
 }
 
 // New starts the three replicas and elects replica 1 (scripted, not explored).
-func New(progs [][]Op) (*Cluster, error) {
+func New(progs [][]Op) (*Cluster, error) { return NewWith(progs, "mem") }
+
+// NewWith: engine "pebble" keeps the data of a stopped replica on disk, so a restart meets what the
+// replica had applied before (the mem engine always restarts empty).
+func NewWith(progs [][]Op, eng string) (*Cluster, error) {
 	silence()
 	engine.VerifSetMemType(0)
 	wal.SegmentSizeBytes = 16 * 1024
@@ -181,7 +186,7 @@ func New(progs [][]Op) (*Cluster, error) {
 	if err != nil {
 		return nil, err
 	}
-	c := &Cluster{root: root}
+	c := &Cluster{root: root, engine: eng}
 	for i := 1; i <= N; i++ {
 		c.reps[i-1] = &replica{id: i, dir: path.Join(root, fmt.Sprintf("n%d", i))}
 		os.MkdirAll(c.reps[i-1].dir, 0o755)
